@@ -617,6 +617,8 @@ impl Engine for ArcEngine {
         p.set("pool", pool);
         p.set("threads", threads);
         p.set("shared", rng.range(0, 2));
+        // (free-running mode only) rounds of the contention phase all threads start with
+        p.set("hammer", if rng.chance(1, 3) { rng.range(50, 1500) } else { 0 });
         // swarm: each op kind is switched off in a subset of runs
         let mut w: Vec<u32> = vec![10, 14, 6, 5, 6, 5, 4, 6, 12];
         for i in 1..w.len() {
@@ -705,7 +707,7 @@ impl Engine for ArcEngine {
         let npool = plan.cfg("pool", 4).clamp(1, 16) as usize;
         let threads = plan.cfg("threads", 1).clamp(1, 4) as usize;
         let shared = plan.cfg("shared", 0).clamp(0, 4) as usize;
-        vcheck!(plan.steps.len() + shared < MAX_ALLOCS, "harness.bounds", "arc", "plan too long");
+        vcheck!(plan.steps.len() + shared + 4 < MAX_ALLOCS, "harness.bounds", "arc", "plan too long");
         let reg = Arc::new(Registry { drops: (0..MAX_ALLOCS).map(|_| AtomicU32::new(0)).collect() });
         let free = ctx.free;
         let npools = if free { threads } else { 1 };
@@ -809,6 +811,35 @@ fn exec_baton(plan: &Plan, ctx: &mut RunCtx, st: &mut State) -> VResult {
     Ok(())
 }
 
+/// All threads at once, before their steps: short-lived allocations whose last handle goes away
+/// while other threads are inside clone and drop functions too, and clone + drop of this
+/// thread's handle to a shared allocation (contention on one count). The value must be destroyed
+/// by the time the drop of its last handle returns, whatever the other threads are doing.
+fn hammer(st: &State, pool: &Pool, t: usize, k: u32) -> VResult {
+    let id = (MAX_ALLOCS - 1 - t) as u32;
+    let seen = |n: u32| st.reg.drops[id as usize].load(Ordering::SeqCst) == n;
+    let base = st.reg.drops[id as usize].load(Ordering::SeqCst);
+    for j in 0..k {
+        let a = CArc::from(mk_payload(st, id));
+        let b = a.clone();
+        drop(a);
+        vcheck!(seen(base + j), "arc.payload_drop", "hammer", "thread {}: the shared value was destroyed while one of its two handles was still alive", t);
+        let c: CArcSome<P> = b.transpose().expect("non-empty handle transposed to None");
+        let d = c.clone();
+        drop(c);
+        drop(d);
+        vcheck!(seen(base + j + 1), "arc.payload_drop", "hammer", "thread {}: the shared value was not destroyed by the time the drop of its last handle returned (destroyed {} time(s) after {} round(s))", t, st.reg.drops[id as usize].load(Ordering::SeqCst) - base, j + 1);
+        for s in pool.slots.iter().flatten().take(2) {
+            match &s.h {
+                H::CArc(x) => drop(x.clone()),
+                H::Some(x) => drop(x.clone()),
+                _ => {}
+            }
+        }
+    }
+    Ok(())
+}
+
 /// Free-running mode: each logical thread runs its own steps on its own pool, unsynchronised.
 fn exec_free(plan: &Plan, ctx: &mut RunCtx, st: &mut State, threads: usize) -> VResult {
     let pools = std::mem::take(&mut st.pools);
@@ -817,9 +848,19 @@ fn exec_free(plan: &Plan, ctx: &mut RunCtx, st: &mut State, threads: usize) -> V
         let mut hs = Vec::new();
         for (t, mut pool) in pools.into_iter().enumerate() {
             let steps = &plan.steps;
+            let hammer_k = plan.cfg("hammer", 0).clamp(0, 5000) as u32;
             hs.push(sc.spawn(move || {
                 let stref = SendRef(stref);
                 let mut counts = Vec::new();
+                // (under Miri every plan starts with a short contention phase: it is the only
+                // scheduler here that interleaves the threads' clone and drop functions)
+                let hammer_k = if cfg!(miri) { hammer_k.clamp(3, 6) } else { hammer_k };
+                if hammer_k > 0 {
+                    if let Err(v) = hammer(stref.0, &pool, t, hammer_k) {
+                        std::mem::forget(pool);
+                        return Err(v);
+                    }
+                }
                 for (i, step) in steps.iter().enumerate() {
                     if (step.t as usize) % threads != t {
                         continue;
